@@ -272,6 +272,9 @@ func (c *Ctx) exec(fn *ssa.Function, args []Val, st0 *State, reach0 string, dept
 				}
 			}
 			in[to.Index] = append(in[to.Index], edge{s, cond, from.Index})
+			if fr.isRoot && !c.specMode {
+				c.edgeConds = append(c.edgeConds, edgeCond{cond: cond, at: c.fset.Position(pos), from: from.Index, to: to.Index})
+			}
 		}
 		for _, ins := range b.Instrs {
 			switch x := ins.(type) {
